@@ -456,6 +456,10 @@ func genIdx(t *rapid.T) []int {
 
 func genFault(t *rapid.T, kinds []string) *Fault {
 	f := &Fault{Kind: rapid.SampledFrom(kinds).Draw(t, "kind")}
+	if fundsTxn(f.Kind) && rapid.IntRange(0, 2).Draw(t, "poolfault") == 0 {
+		f.Sig = rapid.SampledFrom(poolFaults).Draw(t, "poolsig")
+		return f
+	}
 	if rapid.IntRange(0, 3).Draw(t, "sigfault") == 0 {
 		f.Sig = rapid.SampledFrom([]string{"random", "other-number", "other-key"}).Draw(t, "sig")
 		return f
@@ -509,7 +513,7 @@ func genC09(t *rapid.T) C09Case {
 			op.Len = rapid.IntRange(0, 7).Draw(t, "len")
 		default:
 			op.Op = "fault"
-			op.Fault = genFault(t, []string{"free", "free", "free", "append", "append", "replenish-accounts", "fund", "roots"})
+			op.Fault = genFault(t, []string{"free", "free", "free", "append", "append", "replenish-accounts", "fund", "roots", "renew", "refresh-full", "refresh-partial"})
 			op.Idx = genIdx(t)
 			if len(op.Idx) == 0 {
 				op.Idx = []int{rapid.IntRange(0, 7).Draw(t, "idx1")}
@@ -529,7 +533,7 @@ func genC09(t *rapid.T) C09Case {
 	return c
 }
 
-const c09Rule = "sequences of append (stored and unknown roots mixed), free (any positions, any order, duplicates, out of range), sector-roots ranges and faulty exchanges (renter stops/closes/stalls/truncates at a message boundary, or sends a wrong signature) on 1-2 contracts of 0..6 (thorough 0..10) sectors against the real rhp4.Server; after every attempt MetaRoot(host roots) = committed FileMerkleRoot, count x SectorSize = Filesize, failed/abandoned attempts leave the by-value snapshot (revision, roots, balances) unchanged, successes equal the list model and core's ReviseFor*. Non-trivial = a free of >= 2 positions where a replacement comes from a position that is itself freed, or an abort after the host's first response; distinct by hash of the case."
+const c09Rule = "sequences of append (stored and unknown roots mixed), free (any positions, any order, duplicates, out of range), sector-roots ranges and faulty exchanges (renter stops/closes/stalls/truncates at a message boundary, or sends a wrong signature; renew / refresh whose finished set the pool rejects) on 1-2 contracts of 0..6 (thorough 0..10) sectors against the real rhp4.Server; after every attempt MetaRoot(host roots) = committed FileMerkleRoot, count x SectorSize = Filesize, failed/abandoned attempts leave the by-value snapshot (revision, roots, balances) unchanged, successes equal the list model and core's ReviseFor*. Non-trivial = a free of >= 2 positions where a replacement comes from a position that is itself freed, or an abort after the host's first response; distinct by hash of the case."
 
 var c09Assumptions = []string{
 	"host = rhp4.Server over the repository's reference testutil.EphemeralContractor / EphemeralSectorStore on the all-v2 test network, reached through an in-memory buffered stream (net.Conn obligations only)",
